@@ -41,8 +41,9 @@ def has_cls(spec, cls):
 
 
 def aperture_inf(spec):
-    return any(l["cls"] == "Aperture" and any(isinstance(l["kw"].get(k), float) and math.isinf(l["kw"][k]) for k in ("x_max", "y_max"))
-               for l in leaves(spec))
+    def inf(v):
+        return any(inf(x) for x in v) if isinstance(v, list) else (isinstance(v, float) and math.isinf(v))
+    return any(l["cls"] == "Aperture" and any(inf(final_value(l, k)) for k in ("x_max", "y_max")) for l in leaves(spec))
 
 
 def vectorise(rng, spec, n):
@@ -67,7 +68,7 @@ def uniquify(spec, seen=None):
     return spec
 
 
-def gen_case(rng, nested, allow=None):
+def gen_case(rng, nested, allow=None, retune=False):
     lat = realgen.gen_lattice(rng, n_max=5, depth=(rng.choice([1, 2, 3]) if nested else 0), allow=allow)
     if nested and not has_nested(lat):
         # force one sub-segment at a random position
@@ -78,9 +79,101 @@ def gen_case(rng, nested, allow=None):
         lat["es"].insert(rng.randrange(0, len(lat["es"]) + 1), sub)
     uniquify(lat)
     vec = rng.random() < 0.4
+    vec_n = rng.choice([2, 3]) if vec else 0
     if vec:
-        vectorise(rng, lat, rng.choice([2, 3]))
+        vectorise(rng, lat, vec_n)
+    if retune:
+        gen_retune(rng, lat, vec_n)
     return lat, vec
+
+
+# re-tuning after construction.  RBend stores dipole_e = rbend_e + angle/2 and reports rbend_e = dipole_e - angle/2: to keep that
+# round trip free of float32 rounding (the property is about save/load, not about that subtraction) every angle / pole-face
+# angle of a re-tuned RBend is a small dyadic number.
+DYADIC_ANGLE = [0.0, 0.015625, -0.03125, 0.125, -0.25, 0.25, 0.5]
+DYADIC_E = [0.0, 0.0625, -0.125, 0.25, 0.75]
+RBEND_LIVE = {"angle": DYADIC_ANGLE, "dipole_e1": DYADIC_E, "dipole_e2": DYADIC_E, "rbend_e1": DYADIC_E, "rbend_e2": DYADIC_E}
+
+
+def final_value(l, k):
+    """value of parameter k of leaf l at the time of saving (last re-tune, else the constructor argument)"""
+    for rt in reversed(l.get("retune", [])):
+        if rt["attr"] == k:
+            return rt["value"]
+    return l["kw"].get(k)
+
+
+def gen_retune(rng, lat, vec_n):
+    """plan assignments of new values to tensor parameters of the built elements (as done when optimising magnet settings):
+    leaf["retune"] = [{"attr", "value", "via": "element" | "segment"}], applied in order after construction."""
+    def like(pool, n):
+        return [rng.choice(pool) for _ in range(n)] if n else rng.choice(pool)
+    if not has_cls(lat, "RBend") and rng.random() < 0.5:
+        e = realgen.gen_element(rng, cls="RBend", name="rb_forced")
+        lat["es"].insert(rng.randrange(0, len(lat["es"]) + 1), e)
+        uniquify(lat)
+    total = 0
+    for l in leaves(lat):
+        plan, kw = [], l["kw"]
+        fresh = realgen.gen_element(rng, cls=l["cls"])["kw"]
+        if l["cls"] == "RBend":
+            for k, pool in (("angle", DYADIC_ANGLE), ("rbend_e1", DYADIC_E), ("rbend_e2", DYADIC_E)):
+                kw[k] = like(pool, len(kw[k]) if isinstance(kw.get(k), list) else 0)
+            live = [k for k in RBEND_LIVE if rng.random() < 0.5] or ["angle"]
+            rng.shuffle(live)
+            for k in live:
+                plan.append({"attr": k, "value": like(RBEND_LIVE[k], vec_n if (vec_n and rng.random() < 0.3) else 0)})
+        for k in kw:
+            if k not in realgen.TENSOR_KW or k in RBEND_LIVE and l["cls"] == "RBend" or fresh.get(k) is None or kw[k] is None:
+                continue
+            if rng.random() < 0.5:
+                v = fresh[k]
+                if vec_n and k in VECTORISABLE and isinstance(v, (int, float)) and rng.random() < 0.3:
+                    v = [round(float(v) * (1.0 + 0.25 * i) + 0.01 * i, 6) for i in range(vec_n)]
+                plan.append({"attr": k, "value": v})
+        if plan and rng.random() < 0.25:          # the same parameter tuned twice: the LAST value counts
+            again = dict(rng.choice(plan))
+            if l["cls"] == "RBend" and again["attr"] in RBEND_LIVE:
+                again["value"] = like(RBEND_LIVE[again["attr"]], len(again["value"]) if isinstance(again["value"], list) else 0)
+            else:
+                again["value"] = realgen.gen_element(rng, cls=l["cls"])["kw"].get(again["attr"])
+            if again["value"] is not None:
+                plan.append(again)
+        for rt in plan:
+            rt["via"] = rng.choice(["element", "segment"])
+        if plan:
+            l["retune"] = plan
+            total += len(plan)
+    return total
+
+
+def apply_retune(seg, lat):
+    """perform the planned assignments on the LIVE objects, through the element or through the by-name handle of the segment
+    that contains it.  Returns the list of problems (an exception raised by an assignment is an observation)."""
+    errs = []
+
+    def walk(parent, e, spec):
+        if spec["cls"] == "Segment":
+            for co, cs in zip(e.elements, spec["es"]):
+                walk(e, co, cs)
+            return
+        for rt in spec.get("retune", []):
+            try:
+                target = e
+                if rt["via"] == "segment" and parent is not None:
+                    target = getattr(parent, spec["name"])
+                    if target is not e:
+                        errs.append(f"segment.{spec['name']} is not the element named {spec['name']}")
+                        target = e
+                setattr(target, rt["attr"], torch.tensor(rt["value"], dtype=torch.float32))
+            except Exception as ex:
+                errs.append(f"assigning {spec['cls']}.{rt['attr']} raised {type(ex).__name__}: {ex}"[:200])
+    walk(None, seg, lat)
+    return errs
+
+
+def is_retuned(lat):
+    return any(l.get("retune") for l in leaves(lat))
 
 
 def skeleton(spec):
@@ -161,9 +254,24 @@ def loose_equal(a, b):
     return False, False
 
 
-def compare_trees(rows, a, b, path=()):
+def public_parameters(e):
+    """public tensor buffers and public settable properties (e.g. Dipole.dipole_e1, which RBend inherits) of a live element"""
+    names = [k for k, _ in e.named_buffers() if not k.startswith("_") and "." not in k]
+    for k in dir(type(e)):
+        p = getattr(type(e), k, None)
+        if not k.startswith("_") and isinstance(p, property) and p.fset is not None and k not in ("training",):
+            try:
+                if isinstance(getattr(e, k), torch.Tensor):
+                    names.append(k)
+            except Exception:
+                pass
+    return names
+
+
+def compare_trees(rows, a, b, path=(), buffers=False):
     """structural equality of two real lattices: class, name, nesting, every constructor-settable attribute and
-    defining feature.  Returns (diffs, n_type_drift)."""
+    defining feature (buffers=True: also every public tensor buffer / settable tensor property, e.g. dipole_e1 of an RBend).
+    Values are read from the LIVE objects.  Returns (diffs, n_type_drift)."""
     import cheetah
     diffs, drift = [], 0
     if type(a) is not type(b):
@@ -175,12 +283,24 @@ def compare_trees(rows, a, b, path=()):
             diffs.append({"path": list(path), "kind": "structure", "a": len(a.elements), "b": len(b.elements)})
             return diffs, drift
         for i, (x, y) in enumerate(zip(a.elements, b.elements)):
-            d, k = compare_trees(rows, x, y, path + (i,))
+            d, k = compare_trees(rows, x, y, path + (i,), buffers)
             diffs += d
             drift += k
         return diffs, drift
     row = rows.get(type(a).__name__)
     attrs = list(dict.fromkeys((introspect.settable(row) if row else []) + [f for f in a.defining_features if f != "name"]))
+    # derived parameters (RBend.dipole_e1 = rbend_e1 + angle/2 ...) may legitimately come back broadcast to the shape of the
+    # parameters they are derived from: same dtype and same values after broadcasting
+    derived = [p for p in (public_parameters(a) if buffers else []) if p not in attrs]
+    for p in derived:
+        va, vb = getattr(a, p), getattr(b, p, None)
+        try:
+            ok = isinstance(vb, torch.Tensor) and va.dtype == vb.dtype and introspect.same_value(*torch.broadcast_tensors(va, vb))
+        except Exception:
+            ok = False
+        if not ok:
+            diffs.append({"path": list(path), "kind": "attr", "cls": type(a).__name__, "attr": p,
+                          "a": introspect.describe(va), "b": introspect.describe(vb) if vb is not None else "<missing>"})
     for p in attrs:
         if not hasattr(a, p):
             continue
@@ -208,7 +328,11 @@ def observe(rows, lat, beam, idx):
     seg = realgen.build(lat, dtype=torch.float32)
     path = TMP / f"case_{idx}.json"
     obs = {"save_exc": None, "load_exc": None, "strict": None, "layout_ok": None, "saved": None, "loaded_skel": None, "diffs": [],
-           "type_drift": 0, "track": None, "pure": None, "elem_keys_ok": None}
+           "type_drift": 0, "track": None, "pure": None, "elem_keys_ok": None, "retune_problems": []}
+    retuned = is_retuned(lat)
+    if retuned:
+        # construct -> re-tune -> save -> reload: from here on `seg` is the LIVE lattice the file has to reproduce
+        obs["retune_problems"] = apply_retune(seg, lat)
     before = snapshot(seg)
     try:
         seg.to_lattice_json(str(path))
@@ -246,7 +370,7 @@ def observe(rows, lat, beam, idx):
         obs["load_exc"] = f"{type(ex).__name__}: {ex}"[:200]
         return obs, seg, None
     obs["loaded_skel"] = real_skeleton(loaded)
-    obs["diffs"], obs["type_drift"] = compare_trees(rows, seg, loaded)
+    obs["diffs"], obs["type_drift"] = compare_trees(rows, seg, loaded, buffers=retuned)
     if not snapshots_equal(before, snapshot(seg)):     # neither saving nor loading touches the original
         obs["pure"] = False
     structural = [d for d in obs["diffs"] if d["kind"] != "attr"]
@@ -281,6 +405,8 @@ def classify(lat, obs):
     """Returns (list of known-finding tags, list of unexplained problems) for one observation."""
     known, bad = [], []
     nested = has_nested(lat)
+    for pr in obs.get("retune_problems") or []:
+        bad.append("re-tuning after construction: " + pr)
     if obs["pure"] is False:
         bad.append("saving altered the segment")
     if obs["save_exc"]:
@@ -396,6 +522,26 @@ def shrink(rows, lat, beam, still_bad):
                     break
             except Exception:
                 pass
+        if changed:
+            continue
+        # drop single re-tuning assignments
+        n_leaves = len(list(leaves(lat)))
+        for li in range(n_leaves):
+            for ri in range(len(list(leaves(lat))[li].get("retune", []))):
+                t2 = copy.deepcopy(lat)
+                l2 = list(leaves(t2))[li]
+                if len(l2["retune"]) == 1 and sum(len(x.get("retune", [])) for x in leaves(t2)) == 1:
+                    continue                 # keep the case a re-tuned one (same comparison)
+                del l2["retune"][ri]
+                try:
+                    if still_bad(t2):
+                        lat = t2
+                        changed = True
+                        break
+                except Exception:
+                    pass
+            if changed:
+                break
     return lat
 
 
@@ -428,7 +574,11 @@ def main(tier, replay=None):
                        "to_lattice_json: json.loads structure vs vm_compute of the Coq model (faithful and repaired converter), strict JSON, "
                        "top-level layout, from_lattice_json vs the original (class, name, nesting, every constructor parameter and defining "
                        "feature bit-equal), bit-equal tracking of a random beam, segment unchanged by saving; class table regenerated from the "
-                       "live code and checked by Coq.  Non-trivial = >=2 leaves; distinct by full lattice content.")
+                       "live code and checked by Coq.  A further quarter of the cases is RE-TUNED after construction (new values assigned to the "
+                       "tensor parameters of every class through the element and through segment.<name>, incl. RBend angle / dipole_e1/2 / "
+                       "rbend_e1/2 with dyadic values, some twice) before saving: the loaded lattice must equal the LIVE one (every parameter "
+                       "and public buffer read back from the live objects, bit-equal tracking).  Non-trivial = >=2 leaves; distinct by full "
+                       "lattice content.")
     if replay:
         return do_replay(run, replay)
     proof_ok = run.proof_stage()
@@ -440,9 +590,10 @@ def main(tier, replay=None):
     n = 3000 if thorough else 200
     unloadable = sorted(r["cname"] for r in rows_l if introspect.extra(r))      # constructor rejects a saved keyword
     cases, terms, problems = [], [], []
-    for i in range(n):
+    n_rt = 600 if thorough else 48             # construct -> re-tune (assign parameters) -> save -> reload
+    for i in range(n + n_rt):
         nested = i % 2 == 1
-        lat, vec = gen_case(run.rng, nested)
+        lat, vec = gen_case(run.rng, nested, retune=i >= n)
         beam = realgen.gen_particle_beam(run.rng)
         obs, _, _ = observe(rows, lat, beam, i)
         known, bad = classify(lat, obs)
@@ -450,8 +601,12 @@ def main(tier, replay=None):
         run.add_case(["lat", lat], nl >= 2)
         run.count("nested" if has_nested(lat) else "flat")
         run.count("vectorised" if vec else "scalar")
+        run.count("retuned_after_construction" if is_retuned(lat) else "as_constructed")
         for l in leaves(lat):
             run.count("cls_" + l["cls"])
+            for rt in l.get("retune", []):
+                run.count("retune_" + l["cls"] + ("." + rt["attr"] if l["cls"] == "RBend" else ""))
+                run.count("retune_via_" + rt["via"])
         run.count("track_" + str(obs["track"]))
         if obs["type_drift"]:
             run.count("loaded_int_or_tuple_parameter_came_back_as_tensor", obs["type_drift"])
@@ -487,6 +642,8 @@ def main(tier, replay=None):
     replay_known(run, rows)
     run.cov["tested_only"] = ["JSON text layer (json.dumps / CompactJSONEncoder / json.load) and float <-> text conversion: exercised, not modelled",
                               "bit-equal tracking of original vs loaded lattice (follows from attribute equality in the model; tested on random beams)",
+                              "re-tuned lattices (parameters assigned after construction): the file reproduces the live values (the model saves the element's "
+                              "current attributes by construction; that every defining feature reads live state is tested, not modelled)",
                               "segment buffers unchanged by saving (by construction in the model; tested on every case)",
                               "an int / tuple parameter comes back as an integer tensor (binning, num_steps, resolution): accepted as equal value, counted"]
 
